@@ -96,24 +96,27 @@ class OpAdd(Op):
         self, data: Union[MutableSequence[object], MutableMapping[str, object]]
     ) -> Union[MutableSequence[object], MutableMapping[str, object]]:
         """Apply this patch operation to _data_."""
+        # Insert a copy so the patch and the caller's operations stay intact when
+        # later operations, or users of the result, modify the inserted value.
+        value = copy.deepcopy(self.value)
         parent, obj = self.path.resolve_parent(data)
         if parent is None:
             # Replace the root object.
             # The following op, if any, will raise a JSONPatchError if needed.
-            return self.value  # type: ignore
+            return value  # type: ignore
 
         target = self.path.parts[-1]
         if isinstance(parent, MutableSequence):
             if obj is UNDEFINED:
                 # An index equal to the length of the array appends, like "-".
                 if target == "-" or target == len(parent):
-                    parent.append(self.value)
+                    parent.append(value)
                 else:
                     raise JSONPatchError("index out of range")
             else:
-                parent.insert(int(target), self.value)
+                parent.insert(int(target), value)
         elif isinstance(parent, MutableMapping):
-            parent[_member_name(parent, target)] = self.value
+            parent[_member_name(parent, target)] = value
         else:
             raise JSONPatchError(
                 f"unexpected operation on {parent.__class__.__name__!r}"
@@ -142,23 +145,26 @@ class OpAddNe(OpAdd):
         self, data: Union[MutableSequence[object], MutableMapping[str, object]]
     ) -> Union[MutableSequence[object], MutableMapping[str, object]]:
         """Apply this patch operation to _data_."""
+        # Insert a copy so the patch and the caller's operations stay intact when
+        # later operations, or users of the result, modify the inserted value.
+        value = copy.deepcopy(self.value)
         parent, obj = self.path.resolve_parent(data)
         if parent is None:
             # Replace the root object.
             # The following op, if any, will raise a JSONPatchError if needed.
-            return self.value  # type: ignore
+            return value  # type: ignore
 
         target = self.path.parts[-1]
         if isinstance(parent, MutableSequence):
             if obj is UNDEFINED:
-                parent.append(self.value)
+                parent.append(value)
             else:
-                parent.insert(int(target), self.value)
+                parent.insert(int(target), value)
         elif (
             isinstance(parent, MutableMapping)
             and _member_name(parent, target) not in parent
         ):
-            parent[_member_name(parent, target)] = self.value
+            parent[_member_name(parent, target)] = value
         return data
 
 
@@ -179,20 +185,23 @@ class OpAddAp(OpAdd):
         self, data: Union[MutableSequence[object], MutableMapping[str, object]]
     ) -> Union[MutableSequence[object], MutableMapping[str, object]]:
         """Apply this patch operation to _data_."""
+        # Insert a copy so the patch and the caller's operations stay intact when
+        # later operations, or users of the result, modify the inserted value.
+        value = copy.deepcopy(self.value)
         parent, obj = self.path.resolve_parent(data)
         if parent is None:
             # Replace the root object.
             # The following op, if any, will raise a JSONPatchError if needed.
-            return self.value  # type: ignore
+            return value  # type: ignore
 
         target = self.path.parts[-1]
         if isinstance(parent, MutableSequence):
             if obj is UNDEFINED:
-                parent.append(self.value)
+                parent.append(value)
             else:
-                parent.insert(int(target), self.value)
+                parent.insert(int(target), value)
         elif isinstance(parent, MutableMapping):
-            parent[_member_name(parent, target)] = self.value
+            parent[_member_name(parent, target)] = value
         else:
             raise JSONPatchError(
                 f"unexpected operation on {parent.__class__.__name__!r}"
@@ -252,18 +261,21 @@ class OpReplace(Op):
         self, data: Union[MutableSequence[object], MutableMapping[str, object]]
     ) -> Union[MutableSequence[object], MutableMapping[str, object]]:
         """Apply this patch operation to _data_."""
+        # Insert a copy so the patch and the caller's operations stay intact when
+        # later operations, or users of the result, modify the inserted value.
+        value = copy.deepcopy(self.value)
         parent, obj = self.path.resolve_parent(data)
         if parent is None:
-            return self.value  # type: ignore
+            return value  # type: ignore
 
         if isinstance(parent, MutableSequence):
             if obj is UNDEFINED:
                 raise JSONPatchError("can't replace nonexistent item")
-            parent[int(self.path.parts[-1])] = self.value
+            parent[int(self.path.parts[-1])] = value
         elif isinstance(parent, MutableMapping):
             if obj is UNDEFINED:
                 raise JSONPatchError("can't replace nonexistent property")
-            parent[_member_name(parent, self.path.parts[-1])] = self.value
+            parent[_member_name(parent, self.path.parts[-1])] = value
         else:
             raise JSONPatchError(
                 f"unexpected operation on {parent.__class__.__name__!r}"
@@ -334,7 +346,8 @@ class OpCopy(Op):
 
         # Adding to the destination follows the rules of the add operation,
         # including "-" and bounds checking for array indices.
-        return OpAdd(path=self.dest, value=copy.deepcopy(source_obj)).apply(data)
+        # Note that OpAdd inserts a deep copy of its value.
+        return OpAdd(path=self.dest, value=source_obj).apply(data)
 
     def asdict(self) -> Dict[str, object]:
         """Return a dictionary representation of this operation."""
